@@ -321,7 +321,8 @@ class FlatSet : private Compare {
 
 #ifdef AMC_CXX17
   node_type extract(const_iterator position) {
-    node_type nt(std::move(*const_cast<miterator>(position)), get_allocator());
+    // miterator may be a class type (std::vector), so compute it from the position instead of casting
+    node_type nt(std::move(*(mbegin() + (position - cbegin()))), get_allocator());
     _sortedVector.erase(position);
     return nt;
   }
